@@ -1,5 +1,7 @@
 import TextxVerif.Proofs.Link.PlainName
 import TextxVerif.Proofs.Link.Store
+import TextxVerif.Props.C03
+import TextxVerif.Link.Conf
 /-!
 # C07 — default reference resolution finds the unique matching object
 
@@ -433,6 +435,48 @@ theorem C07_stored_none (single : Ref → Bool) (conf : Nat → Nat → Bool) (r
   rw [resolveFromSt_read single conf builtins owner attr refs 0 root res root' h, hinit]
   rfl
 
+/-! ## conformance instantiated with the `textx_isinstance` model of C03
+
+Every theorem above holds for an arbitrary relation `conf`.  `confOfGrammar g` (Link/Conf.lean) is the
+relation `textx_isinstance` computes for the grammar `g` — the C03 model
+(`RuleTypes.isInstance`: depth-first search over the `_tx_inh_by` lists with a visited
+set) — and `C03_isinstance` says what it is: same rule, `OBJECT`, or reachable through
+abstract-rule alternatives. -/
+
+open RuleTypes in
+/-- **Clause 1 with `textx_isinstance` spelled out** (C07 ∘ C03). -/
+theorem C07_found_iff_isinstance (g : Gram) (hwf : WF g)
+    (hdoc : ∀ rule ∈ g, rule.body.documented = true) (objectCls : Nat)
+    (root : Obj) (builtins : List (String × Builtin)) (name : String) (tcls : Nat)
+    (h : DistinctIds root) (o : Obj) :
+    let Conforms : Obj → Prop := fun x =>
+      tcls = objectCls ∨ x.cls = tcls ∨ Reach g (kindsOf g) tcls x.cls
+    resolveRef (confOfGrammar g objectCls) root builtins name tcls = .obj o ↔
+      Desc root o ∧ (o.name = some name ∧ Conforms o) ∧
+        ∀ o', Desc root o' → o'.name = some name → Conforms o' → o' = o := by
+  intro Conforms
+  have hconf : ∀ x : Obj, confOfGrammar g objectCls x.cls tcls = true ↔ Conforms x := by
+    intro x
+    unfold confOfGrammar
+    rw [C03_isinstance g hwf hdoc]
+    by_cases ht : tcls = objectCls
+    · simp [ht, Conforms]
+    · simp only [ht, if_false, Cls.rule.injEq, reduceCtorEq, false_or, Conforms]
+      constructor
+      · rintro (h1 | ⟨R, hR, hr⟩)
+        · exact Or.inl h1.symm
+        · exact Or.inr (hR ▸ hr)
+      · rintro (h1 | h1)
+        · exact Or.inl h1.symm
+        · exact Or.inr ⟨tcls, rfl, h1⟩
+  rw [C07_found_iff _ root builtins name tcls h o]
+  simp only [Matches, hconf]
+  constructor
+  · rintro ⟨hd, hm, hu⟩
+    exact ⟨hd, hm, fun o' ho' hn hc => hu o' ho' ⟨hn, hc⟩⟩
+  · rintro ⟨hd, hm, hu⟩
+    exact ⟨hd, hm, fun o' ho' hm' => hu o' ho' hm'.1 hm'.2⟩
+
 /-! ## non-vacuity: two unrelated classes share a name, an abstract target, builtins -/
 
 /-- classes: 0 = L0, 1 = L1, 2 = L2, 10 = abstract `A: L0 | L1`, 99 foreign -/
@@ -498,5 +542,21 @@ example : (match resolveAllSt (storeRef (fun r => r.attr == 0)) exConf
       exBuiltins [⟨"y", 2, 1, 1⟩, ⟨"x", 10, 1, 1⟩, ⟨"int", 10, 1, 0⟩] with
     | .ok (_, root') => (readObj 1 0 root', readObj 1 1 root')
     | .error _ => (none, none)) = (some [100], some [4, 1]) := rfl
+
+/-! ## non-vacuity of the `textx_isinstance` instance -/
+
+/-- `A: L0 | L1;  L0: name=ID;  L1: name=ID;  L2: name=ID;` — rules 0..3, `OBJECT` = 99 -/
+def exGram : RuleTypes.Gram :=
+  [⟨false, .choice [.ref 1, .ref 2]⟩, ⟨true, .lit⟩, ⟨true, .lit⟩, ⟨true, .lit⟩]
+example : RuleTypes.WF exGram := by decide
+example : ∀ rule ∈ exGram, rule.body.documented = true := by decide
+example : confOfGrammar exGram 99 1 0 = true ∧ confOfGrammar exGram 99 3 0 = false ∧
+    confOfGrammar exGram 99 3 99 = true := by decide
+/-- `l0 x { l2 x }`: `[A] x` finds the `L0`, `[L2] x` the `L2`, `[OBJECT] x` is ambiguous -/
+def exTreeG : Obj := .mk 0 7 none [.cont [.mk 1 1 (some "x") [.cont [.mk 2 3 (some "x") []]]]]
+example : outcomeId (resolveRef (confOfGrammar exGram 99) exTreeG [] "x" 0) = .obj 1 ∧
+    outcomeId (resolveRef (confOfGrammar exGram 99) exTreeG [] "x" 3) = .obj 2 ∧
+    outcomeId (resolveRef (confOfGrammar exGram 99) exTreeG [] "x" 99) = .notUnique ∧
+    outcomeId (resolveRef (confOfGrammar exGram 99) exTreeG [] "x" 2) = .unknown := by decide
 
 end Link
